@@ -22,7 +22,7 @@ def version_value(op, tag=''):
 
 def body_statements(b, strlen):
     v = b.var
-    msg = sol.SizedStr(strlen)
+    msg = sol.SizedStr(strlen, z3.BitVec('strchars', 64))
     return [
         b.expr_stmt(b.bin('Assign', v('r'), b.call(b.member(v('a'), 'add'), [v('c')]))),
         b.expr_stmt(b.call(b.member(b.call(b.member(v('a'), 'sub'), [v('c')]), 'mul'), [v('d')])),
@@ -69,7 +69,8 @@ def job(chk, items):
             strlen = z3.BitVec('strlen', 64)
             su, ver = make_file(b, op, placement, using, strlen)
             M, m, p = ver
-            base = [M >= 0, m >= 0, p >= 0, M < bound, m < bound, p < bound, z3.ULE(strlen, 40)]
+            sc = z3.BitVec('strchars', 64)
+            base = [M >= 0, m >= 0, p >= 0, M < bound, m < bound, p < bound, z3.ULE(strlen, 40), z3.ULE(sc, strlen), z3.ULE(strlen, 2 * sc)]
             # the property speaks of a full version: within i32 all three components parse
             meta = {'version': ver}
             label = 'pragma solidity %s<M>.<m>.<p> [%s] using=%s' % (op, placement, using)
@@ -130,7 +131,7 @@ def body(chk):
     combos = list(dict.fromkeys(combos))
     chk.bounds = {'version': 'M, m, p symbolic naturals < 2^31 (every triple, decided by Z3)', 'operator spellings': OPS,
                   'placement of unrelated pragmas': PLACEMENTS, 'SafeMath attachment': USING,
-                  'revert string length': 'symbolic, 0..40 bytes', 'files': len(combos),
+                  'revert string length': 'symbolic: 0..40 bytes, characters of 1 or 2 bytes (byte and character counts both symbolic)', 'files': len(combos),
                   'outside': 'range pragmas / several `pragma solidity` directives (the property speaks of one full version)'}
     chk.assumptions = ['regex contract for \\d+\\.\\d+\\.+\\d+ on structured strings: match structure independent of the digits chosen (validated natively on every path)',
                        'parse::<i32> contract: decimal digits, value must fit', 'as C05']
